@@ -40,7 +40,6 @@ theorem norm_row (c : Bool) (f : Format) (row : Row) (w0 : Nat) (w1? : Option Na
 theorem desc_row (c : Bool) (f : Format) (row : Row) (w0 : Nat) (w1? : Option Nat) (i : Inst) (hfm : f ∈ formats)
     (h13 : ft13.contains f.ft = true) (hw0 : w0 < 2 ^ 32) (hw1 : ∀ w1, w1? = some w1 → w1 < 2 ^ 32)
     (hhit : w0 / 2 ^ shiftOf f = f.encoding / 2 ^ shiftOf f) (hop : extractBits w0 f.opLo f.opHi = row.opcode)
-    (h30 : f.ft = FT_VOP2 → extractBits w0 0 8 = 249 → ∀ w1, w1? = some w1 → extractBits w1 30 30 = 0)
     (h : decodeRow c f row w0 w1? = .ok i) :
     encWord (descOf c i) = (normRow c f.ft row w0 w1?).1 ∧ encSecond (descOf c i) = (normRow c f.ft row w0 w1?).2 := by
   rcases ft13_cases h13 with g | g | g | g | g | g | g | g | g | g | g | g | g
@@ -61,7 +60,7 @@ theorem desc_row (c : Bool) (f : Format) (row : Row) (w0 : Nat) (w1? : Option Na
     exact desc_sopp c f row w0 w1? i g a1 hw0 hw1 hhit hop h
   · obtain ⟨a1, a2, a3, a4, a5⟩ := fmt_vop2 f hfm g
     rw [a4, a5] at hhit; rw [a2, a3] at hop
-    exact desc_vop2 c f row w0 w1? i g a1 hw0 hw1 hhit hop (h30 g) h
+    exact desc_vop2 c f row w0 w1? i g a1 hw0 hw1 hhit hop h
   · obtain ⟨a1, a2, a3, a4, a5⟩ := fmt_vop1 f hfm g
     rw [a4, a5] at hhit; rw [a2, a3] at hop
     exact desc_vop1 c f row w0 w1? i g a1 hw0 hw1 hhit hop h
